@@ -75,7 +75,8 @@ class FunctionData:
                     len(self.code[1:]),
                 )
 
-                end_name = name + "end"
+                # the function's own label (a library function's carries the module name) + "end"
+                end_name = self.code[0].op.strip()[:-1] + "end"
 
                 # Every exit point — 'j {name}end' (early return) or '{name}end:' (normal
                 # path) — needs 'pop ra' before its preceding return-value push, or before
